@@ -197,12 +197,56 @@ def rule_framing(ctx: Ctx):
         rc.paths += 1
         if not _normal(p):
             continue
-        writes = [e for e in p.trace if e.k == "mutate" and e.method == "write"]
-        ok = len(writes) == 2 and writes[0].args[0][0] == "free" and writes[0].args[0][1] == CARRY and writes[1].args[0] == EV and writes[0].base == writes[1].base
-        r2.ob(ok, lambda: mk_finding("FR-2", spec, None, {}, p, "the buffer must hold the carry-over followed by the new chunk; writes: %s" % [e.brief() for e in writes], extra="buffer"))
-        if not writes:
-            continue
-        buf = writes[0].base
+        view = ByteView(p)
+        sizes = [e for e in p.trace if e.k == "call" and e.d.get("method") == "from_bytes"]
+        frames = [mm for mm in emissions(p) if mm.method == "on_next"]
+        nl = [e for e in p.trace if e.k == "nonlocal" and e.name == CARRY]
+        Pt = None
+        for x in [t for e in sizes for a_ in e.args for t in subterms(a_)] + [t for e in p.trace if e.k == "decision" for t in subterms(e.test)]:
+            if is_prefix(x):
+                Pt = x
+        if Pt is None:
+            raise AnalysisError("length_prefix.unframe: the prefix_size parameter does not appear on a path")
+        Pf = ({Pt: 1}, 0)
+
+        def offset(k):
+            """start of frame k: k prefixes and the k delivered payloads"""
+            f = ({Pt: k} if k else {}, 0)
+            for e_ in sizes[:k]:
+                f = _ladd(f, ({e_.result: 1}, 0))
+            return f
+        bufs = set()
+        # the parsed size uses prefix_size bytes at the start of the frame, and the byteorder parameter
+        for k, e in enumerate(sizes):
+            iv = view.resolve(e.args[0]) if e.args else None
+            ok = iv is not None and iv[1] == offset(k) and iv[2] == _ladd(offset(k), Pf) and \
+                any(x[0] == "param" and x[1] == "byteorder" for a_ in e.args[1:] for x in subterms(a_))
+            if iv is not None:
+                bufs.add(iv[0])
+            r2.ob(ok, lambda e=e, k=k: mk_finding("FR-2", spec, None, {}, p,
+                                                  "the size of frame %d must be parsed from the prefix_size bytes that start it (after the frames already "
+                                                  "delivered), with the byteorder parameter: %s" % (k, e.brief()), node=e.node, extra="size"))
+        # emitted payload k = the size_k bytes that follow prefix k
+        for k, mm in enumerate(frames):
+            iv = view.resolve(mm.eff.arg)
+            ok = iv is not None and k < len(sizes) and iv[1] == _ladd(offset(k), Pf) and iv[2] == _ladd(_ladd(offset(k), Pf), ({sizes[k].result: 1}, 0))
+            if iv is not None:
+                bufs.add(iv[0])
+            r2.ob(ok, lambda mm=mm: mk_finding("FR-2", spec, None, {}, p, "the emitted frame must be exactly 'size' bytes read after the prefix; emitted %s" % show(mm.eff.arg),
+                                               node=mm.eff.node, extra="payload"))
+        # carry-over = everything after the delivered frames
+        if not p.truncated:
+            iv = view.resolve(nl[0].value) if len(nl) == 1 else None
+            ok = iv is not None and iv[1] == offset(len(frames)) and iv[2] is None
+            if iv is not None:
+                bufs.add(iv[0])
+            r2.ob(ok, lambda: mk_finding("FR-2", spec, None, {}, p,
+                                         "after parsing, exactly the unconsumed bytes (from offset = sum of prefix_size + size of the delivered frames) must become "
+                                         "the carry-over; carry-over: %s" % [e.brief() for e in nl], extra="carry"))
+        # one buffer: the carry-over followed by the new chunk
+        parts = [view.parts(b_) for b_ in bufs]
+        ok = len(bufs) == 1 and len(parts[0]) == 2 and parts[0][0][0] == "free" and parts[0][0][1] == CARRY and parts[0][1] == EV
+        r2.ob(ok, lambda: mk_finding("FR-2", spec, None, {}, p, "the buffer must hold the carry-over followed by the new chunk; it holds %s" % [[show(x) for x in ps] for ps in parts], extra="buffer"))
         for pos, e in enumerate(p.trace):
             if e.k != "decision":
                 continue
@@ -245,41 +289,6 @@ def rule_framing(ctx: Ctx):
                 "'buffer length ... %s 0'; a frame that ends exactly at the end of the buffer is not delivered until more data arrives (or never, at the end "
                 "of the stream)" % (what, show(e.test), e.outcome, "frame delivered / loop continues" if enough else "loop left", op2),
                 node=e.node, extra=what))
-        # the parsed size uses prefix_size bytes and the byteorder parameter
-        for e in p.trace:
-            if e.k == "call" and e.d.get("method") == "from_bytes":
-                a0 = e.args[0]
-                ok = a0[0] == "mcall" and a0[1] == buf and a0[2] == "read" and a0[3] and a0[3][0][0] == "param" and a0[3][0][1] == "prefix_size" and \
-                    any(x[0] == "param" and x[1] == "byteorder" for a in e.args[1:] for x in subterms(a))
-                r2.ob(ok, lambda e=e: mk_finding("FR-2", spec, None, {}, p, "the frame size must be parsed from prefix_size bytes with the byteorder parameter: %s" % e.brief(), node=e.node, extra="size"))
-        # emitted payload = read(size)
-        for mm in emissions(p):
-            if mm.method == "on_next":
-                v = mm.eff.arg
-                ok = v[0] == "mcall" and v[1] == buf and v[2] == "read" and v[3] and v[3][0][0] == "mcall" and v[3][0][2] == "from_bytes"
-                r2.ob(ok, lambda v=v: mk_finding("FR-2", spec, None, {}, p, "the emitted frame must be exactly 'size' bytes read after the prefix; emitted %s" % show(v), extra="payload"))
-        # carry-over: seek(consumed) then carry = read()
-        if p.truncated:
-            continue
-        seeks = [e for e in p.trace if e.k == "mutate" and e.method == "seek" and e.base == buf]
-        nl = [e for e in p.trace if e.k == "nonlocal" and e.name == CARRY]
-        n_emitted = len([1 for mm in emissions(p) if mm.method == "on_next"])
-        ok = len(nl) == 1 and nl[0].value[0] == "mcall" and nl[0].value[1] == buf and nl[0].value[2] == "read" and not [a for a in nl[0].value[3]]
-        ok = ok and bool(seeks) and p.trace.index(seeks[-1]) < p.trace.index(nl[0])
-        if ok:
-            f = linform(seeks[-1].args[0])
-            ok = f is not None
-            if ok:
-                co = dict(f[0])
-                szs = [k for k in co if is_size(k)]
-                pss = [k for k in co if is_prefix(k)]
-                if n_emitted == 0:
-                    ok = not co and f[1] == 0
-                else:
-                    ok = len(szs) == n_emitted and all(co[k] == 1 for k in szs) and len(pss) == 1 and co[pss[0]] == n_emitted and f[1] == 0 and len(co) == len(szs) + 1
-        r2.ob(ok, lambda: mk_finding("FR-2", spec, None, {}, p,
-                                     "after parsing, exactly the unconsumed bytes (from offset = sum of prefix_size + size of the delivered frames) must become "
-                                     "the carry-over; seeks: %s, carry-over: %s" % ([e.brief() for e in seeks[-1:]], [e.brief() for e in nl]), extra="carry"))
     if not (seen_avail and seen_payload):
         raise AnalysisError("length_prefix.unframe: the availability comparisons were not found")
     # completion: an incomplete trailing frame is never delivered
@@ -291,6 +300,81 @@ def rule_framing(ctx: Ctx):
     r2.require_instances(2)
     rc.require_instances(1)
     return [r, r2, rc]
+
+
+def _ladd(f, g, sign=1):
+    co = dict(f[0])
+    for k, v in g[0].items():
+        co[k] = co.get(k, 0) + sign * v
+    return ({k: v for k, v in co.items() if v != 0}, f[1] + sign * g[1])
+
+
+class ByteView:
+    """Byte buffers of one path, whatever the idiom: a BytesIO object written then read through its cursor
+    (write / seek / read), the bytes it returns (getvalue), concatenations (a + b, b''.join([a, b])), slices.  Every term
+    that denotes bytes taken from a buffer gets the interval [lo, hi) it covers (linear forms; hi None = to the end)."""
+
+    def __init__(self, path):
+        self.content = {}      # buffer object -> parts written, in order
+        self.cursor = {}       # buffer object -> linear form
+        self.interval = {}     # term -> (buffer, lo, hi)
+        self.alias = {}        # term -> buffer object whose whole content it is
+        self.unknown = set()   # buffers moved by a seek that is not understood
+        zero = ({}, 0)
+        for e in path.trace:
+            if e.k == "mutate" and e.method == "write" and e.args:
+                self.content.setdefault(e.base, []).append(e.args[0])
+            elif e.k == "mutate" and e.method == "seek" and e.args:
+                whence = e.args[1] if len(e.args) > 1 else None
+                if whence is not None and whence[0] == "kw":
+                    whence = whence[2]
+                f = linform(e.args[0])
+                if f is None or not (whence is None or whence == ("glob", "io.SEEK_SET") or whence == ("const", 0)):
+                    self.unknown.add(e.base)
+                else:
+                    self.cursor[e.base] = f
+            elif e.k == "call" and e.d.get("method") == "read":
+                lo = self.cursor.get(e.base, zero)
+                args = [a for a in e.args if a[0] != "kw"]
+                n = linform(args[0]) if args else None
+                hi = _ladd(lo, n) if n is not None else None
+                self.interval[e.result] = (e.base, lo, hi)
+                if hi is not None:
+                    self.cursor[e.base] = hi
+                else:
+                    self.unknown.add(e.base)
+            elif e.k == "call" and e.d.get("method") in ("getvalue", "getbuffer"):
+                self.alias[e.result] = e.base
+
+    def buffer_of(self, x):
+        if x in self.alias:
+            return self.alias[x]
+        return x
+
+    def parts(self, buf):
+        if buf in self.content:
+            return list(self.content[buf])
+        if buf[0] == "binop" and buf[1] == "Add":
+            return self.parts(buf[2]) + self.parts(buf[3])
+        if buf[0] == "mcall" and buf[2] == "join" and buf[1][0] == "const" and buf[1][1] in (b"", "") and buf[3] and buf[3][0][0] in ("list", "tuple"):
+            out = []
+            for x in buf[3][0][1:]:
+                out += self.parts(x)
+            return out
+        return [buf]
+
+    def resolve(self, t):
+        """(buffer, lo, hi) of a term denoting bytes of a buffer, or None"""
+        if t in self.interval:
+            b, lo, hi = self.interval[t]
+            return None if b in self.unknown and False else (b, lo, hi)
+        if t[0] == "sub" and t[2][0] == "slice" and len(t[2]) == 3:
+            lo = linform(t[2][1]) if t[2][1] is not None else ({}, 0)
+            hi = linform(t[2][2]) if t[2][2] is not None else None
+            if lo is None or (t[2][2] is not None and hi is None):
+                return None
+            return (self.buffer_of(t[1]), lo, hi)
+        return None
 
 
 def _item_then_delim(v):
@@ -344,10 +428,21 @@ def rule_compression(ctx: Ctx):
             # codec object created once per subscription, in the subscribe function
             site = ctx.site(rel, "%s._%s.on_subscribe" % (fname, fname))
             r1.instances += 1
-            var = "compressor" if fname == "compress" else "decompressor"
-            created = [n for n in site.subscribe_fn.body if isinstance(n, ast.Assign) and any(isinstance(t, ast.Name) and t.id == var for t in n.targets)]
-            r1.ob(bool(created), lambda: Finding("OB-1", "%s::%s{codec-object}" % (rel, fname), site.where(),
-                                                 "the %s object must be created once per subscription in the subscribe function" % var))
+            var = "%sor object" % fname
+            # the codec object: a local of the subscribe function assigned once, unconditionally, from a call (so one
+            # object per subscription); the handlers must call that object and no other
+            created, elsewhere = set(), set()
+            for n in ast.walk(site.subscribe_fn):
+                if isinstance(n, ast.Nonlocal):
+                    elsewhere |= set(n.names)
+                elif isinstance(n, ast.Assign):
+                    top = n in site.subscribe_fn.body and len(n.targets) == 1 and isinstance(n.targets[0], ast.Name) and isinstance(n.value, ast.Call)
+                    for t in n.targets:
+                        for x in ast.walk(t):
+                            if isinstance(x, ast.Name) and site.module.enclosing_function(n) is site.subscribe_fn:
+                                (created if top else elsewhere).add(x.id)
+            created -= elsewhere
+            used = set()
             for which in ("on_next", "on_completed"):
                 site, sk = _codec_skeleton(ctx, rel, fname, which)
                 skels[(rel, fname, which)] = sorted(s[3] for s in sk)
@@ -359,7 +454,8 @@ def rule_compression(ctx: Ctx):
                     # every codec call is on the one codec object
                     for e in p.trace:
                         if e.k == "call" and e.d.get("method") in ("compress", "decompress", "flush"):
-                            r1.ob(e.base[0] == "free" and e.base[1] == var, lambda e=e: mk_finding(
+                            used.add(e.base)
+                            r1.ob(e.base[0] == "free" and e.base[1] in created, lambda e=e: mk_finding(
                                 "OB-1", spec, None, cfg, p, "%s is called on %s instead of the subscription's %s" % (e.method, show(e.base), var), node=e.node, extra="object"))
                     if which == "on_next":
                         if raised:
@@ -369,7 +465,7 @@ def rule_compression(ctx: Ctx):
                             calls = [e for e in p.trace if e.k == "call" and e.d.get("method") == meth]
                             ok = len(calls) == 1 and tuple(calls[0].args) == (EV,) and len(ems) == 1 and ems[0].method == "on_next" and ems[0].eff.arg == calls[0].result
                             r1.ob(ok, lambda: mk_finding("OB-1", spec, None, cfg, p,
-                                                         "every chunk must be passed once to %s.%s and the result emitted; this path: %s" % (var, meth, list(steps)), extra="chunk"))
+                                                         "every chunk must be passed once to the %s's %s and the result emitted; this path: %s" % (var, meth, list(steps)), extra="chunk"))
                     else:
                         terms = [x for x in ems if x.method in ("on_completed", "on_error")]
                         eof = [e for e in p.trace if e.k == "decision" and any(x[0] == "attr" and x[2] == "eof" for x in subterms(e.test))]
@@ -400,6 +496,9 @@ def rule_compression(ctx: Ctx):
                             ok = len(ems) == 1 and ems[0].method == "on_error"
                             r3.ob(ok, lambda: mk_finding("OB-3", spec, None, cfg, p,
                                                          "a stream that ends before its end-of-stream marker must end in on_error only; this path: %s" % summary(p), extra="truncated"))
+            r1.ob(len(used) == 1, lambda: Finding("OB-1", "%s::%s{codec-object}" % (rel, fname), site.where(),
+                                                  "the handlers must use one %s created once per subscription in the subscribe function; they call %s" % (
+                                                      var, sorted(show(u) for u in used))))
     # AG-6 sibling codecs
     for fname in ("compress", "decompress"):
         for which in ("on_next", "on_completed"):
@@ -472,21 +571,30 @@ def rule_codec(ctx: Ctx):
         r.ob(d.get("incremental") == "True", lambda: Finding("CD-1", "%s::%s{default}" % (rel, fname), m.where(fn),
                                                              "%s must default to incremental=True (chunk boundaries may cut multi-byte sequences)" % fname))
         site = ctx.site(rel, "%s._%s.on_subscribe" % (fname, fname))
-        var = "encoder" if fname == "encode" else "decoder"
-        # creation: under `if incremental`, from codecs.getincremental*(encoding)()
-        made = False
-        for p in ctx.fn_paths(site.module, site.subscribe_fn, cfg={"incremental": "True"}, roles=site.roles):
-            for e in p.trace:
-                if e.k == "assign" and e.name == var:
-                    v = e.value
-                    ok = v[0] == "call" and v[1][0] == "call" and v[1][1] == ("glob", getter) and v[1][2] and v[1][2][0][0] == "param" and v[1][2][0][1] == "encoding"
-                    made = made or ok
+        var = "the subscription's incremental %sr" % fname[:-1]
+
+        def is_codec(t, getter=getter):
+            """codecs.getincremental*(encoding)() built from the encoding parameter"""
+            return t[0] == "call" and t[1][0] == "call" and t[1][1] == ("glob", getter) and not [a for a in t[2] if a[0] != "kw"] \
+                and t[1][2] and t[1][2][0][0] == "param" and t[1][2][0][1] == "encoding"
+
+        def codec_base(base, env):
+            """the receiver is the codec object created by the subscribe function (directly, or the closure variable
+            that holds it)"""
+            if is_codec(base):
+                return True
+            return base[0] == "free" and base[1] in env and is_codec(env[base[1]])
+        # creation: with incremental=True, from codecs.getincremental*(encoding)(), once per subscription
+        env_inc = ctx.handlers_for(site, {"incremental": "True"}).get("_env", {})
+        made = any(is_codec(x) for v in env_inc.values() for x in [v] + list(subterms(v)))
         r.ob(made, lambda: Finding("CD-1", "%s::%s{codec-object}" % (rel, fname), site.where(),
                                    "with incremental=True one %s()(...) object must be created per subscription from the encoding parameter" % getter))
         for which in ("on_next", "on_completed"):
             for cfg in ({"incremental": "True"}, {"incremental": "False"}):
                 inc = cfg["incremental"] == "True"
-                ref = ctx.handlers_for(site, cfg).get(which, ("absent",))
+                hf = ctx.handlers_for(site, cfg)
+                env = hf.get("_env", {})
+                ref = hf.get(which, ("absent",))
                 if ref[0] == "forward":
                     # observer.on_completed wired directly: nothing is emitted at completion
                     r.paths += 1
@@ -507,18 +615,18 @@ def rule_codec(ctx: Ctx):
                     steps = []
                     if which == "on_next":
                         if inc:
-                            ok = len(calls) == 1 and calls[0].base[0] == "free" and calls[0].base[1] == var and tuple(calls[0].args) == (EV,)
+                            ok = len(calls) == 1 and codec_base(calls[0].base, env) and tuple(calls[0].args) == (EV,)
                         else:
                             ok = len(calls) == 1 and calls[0].base == EV and calls[0].args and calls[0].args[0][0] == "param" and calls[0].args[0][1] == "encoding"
                         ok = ok and len(ems) == 1 and ems[0].method == "on_next" and ems[0].eff.arg == calls[0].result
                         r.ob(ok, lambda: mk_finding("CD-1", spec, None, cfg, p,
                                                     "%s(incremental=%s): every item must go through %s and the result be emitted once; this path: %s / %s" % (
-                                                        fname, inc, ("the subscription's " + var) if inc else "item.%s(encoding)" % meth,
+                                                        fname, inc, var if inc else "item.%s(encoding)" % meth,
                                                         [c.brief() for c in calls], summary(p)), extra="item"))
                         steps = ["inc" if inc else "plain", len(calls), len(ems)]
                     else:
                         if inc:
-                            ok = len(calls) == 1 and calls[0].base[0] == "free" and calls[0].base[1] == var and calls[0].args and calls[0].args[0] == ("const", empty) \
+                            ok = len(calls) == 1 and codec_base(calls[0].base, env) and calls[0].args and calls[0].args[0] == ("const", empty) \
                                 and any(a == ("kw", "final", ("const", True)) for a in calls[0].args)
                             ok = ok and len(ems) == 2 and ems[0].method == "on_next" and ems[0].eff.arg == calls[0].result and ems[1].method == "on_completed"
                         else:
